@@ -148,7 +148,7 @@ def step (p : Probes) (h : Host) (op : Op) : Host × String :=
         s!"X e={recsStr expired} c1={idsStr h.listeners} c2={idsStr h.listeners} cb={cbStr cbs} {readersStr p c'}")
   | .lAdd i => ({ h with listeners := setAdd h.listeners i }, s!"LA {idsStr (setAdd h.listeners i)}")
   | .lRem i =>
-    match applyAct h.listeners (.remove i) with
+    match applyAct Gen.Cache.remove_listener_catches_keyerror h.listeners (.remove i) with
     | .ok ls => ({ h with listeners := ls }, s!"LR {idsStr ls}")
     | .error e => (h, s!"LR err={e.name}")
   | .bAdd i now types =>
